@@ -18,7 +18,7 @@ fn main() {
     let mut out = String::new();
     let mut only_case: Option<usize> = None;
     let mut verbose = false;
-    let mut helper = "/verif/.build/symfrost/debug/symfrost".to_string();
+    let mut helper = format!("{}/.build/symfrost/debug/symfrost", symlab::root());
     let mut it = std::env::args().skip(1);
     while let Some(x) = it.next() {
         match x.as_str() {
@@ -34,7 +34,7 @@ fn main() {
         }
     }
     if out.is_empty() {
-        out = format!("/verif/evidence/{prop}.e1tr.json");
+        out = format!("{}/evidence/{prop}.e1tr.json", symlab::root());
     }
     symlab::install_quiet_panic_hook();
     let t0 = Instant::now();
@@ -120,7 +120,7 @@ fn main() {
         &move |_order, prop, p, seed, model| {
             // concrete runs on the real frost-secp256k1-tr happen in workspace A (real k256)
             let req = serde_json::json!({"prop": prop, "params": p.to_json(), "seed": seed, "model": model.iter().map(|(a, b)| serde_json::json!([a, b])).collect::<Vec<_>>()});
-            let path = format!("/verif/.build/tr-req-{}-{}.json", std::process::id(), seed);
+            let path = format!("{}/.build/tr-req-{}-{}.json", symlab::root(), std::process::id(), seed);
             std::fs::write(&path, req.to_string()).ok();
             let o = std::process::Command::new(&helper2).arg("tr-run").arg(&path).output();
             std::fs::remove_file(&path).ok();
